@@ -9,7 +9,7 @@
    The short-circuit / one-arm clauses of C10 speak about whole programs
    (compiler + evaluator model) and live in other files of this directory. *)
 From Coq Require Import NArith List Bool Arith.
-From GV Require Import Gen.Instr Gen.Exec Gen.Dispatch Model.OpDispatch Spec.Falsy Proofs.C08.Enum
+From GV Require Import Gen.Instr Gen.Exec Gen.Truth Gen.Dispatch Model.OpDispatch Spec.Falsy Proofs.C08.Enum
   Proofs.C10.Classify.
 Import ListNotations.
 
